@@ -582,7 +582,15 @@ def _case_multi(ctx, prm):
                     _cmp(ctx, got, c * singles[(r"a^\dagger", i)] @ singles[("a", j)], 1e-14,
                          f"{cname}|symbol=a^\\dagger a|not-product-of-factors")
             got = _call(basis.op_mat, Op(r"a a^\dagger", [dofs[i], dofs[j]]))
-            if not isinstance(got, _Crash):     # undocumented symbol: recorded, never judged
+            if vac and i != j and not isinstance(got, _Crash):
+                # accepted symbol without documentation.  Whatever the statistics, on the space with at most one particle
+                # a_i a^dagger_j (i != j) can only move the particle from i to j: a_i a^dagger_j = +/- a^dagger_j a_i there
+                ctx.cls("multi-electron-vac:a-adagger-on-different-dofs")
+                ctx.count("oracle")
+                ctx.check(_same(np.abs(np.asarray(got)), unit(j + off, i + off), 1e-14),
+                          f"{cname}|symbol=a a^\\dagger|different-dofs|does-not-move-the-particle-from-the-first-dof-to-the-second",
+                          i=i, j=j)
+            if not isinstance(got, _Crash):     # (same DoF, or the variant without vacuum: recorded, never judged)
                 tag = "same-dof" if i == j else "different-dofs"
                 ctx.count(f"observation:{cname} 'a a^dagger' {tag} -> " +
                           ("|j><i|" if _same(got, unit(j + off, i + off), 1e-14) else "other"))
